@@ -181,6 +181,8 @@ def run_roundtrip(doc, opts, enc, walker, prior=None, namespace=True):
 
 @guarded(60)
 def check_case(case):
+    if case.get("kind") == "chars":
+        return check_chars(case)
     doc, opts, enc, walker = case["doc"], dict(case["opts"]), case.get("encoding"), case.get("walker", "etree")
     want = G.flat(doc)
     if enc and unencodable_comment(doc, enc):
@@ -262,13 +264,67 @@ def shrink_extra(case, fails):
     return c
 
 
+CHAR_BLOCK = 127      # prime to 0x400 and never aligned with a U+xDC00 boundary: neighbouring code points stay neighbours in one run
+
+
+def check_chars(case, pid="C07"):
+    """Every Unicode scalar value (no C0/C1 controls, no surrogates) as text and as attribute value, serialized with an output
+    encoding and read back: blocks of 127 consecutive code points, so that every run of unencodable characters is exercised."""
+    import html5lib
+    from html5lib.serializer import HTMLSerializer
+    start, enc = case["start"], case["encoding"]
+    block = "".join(chr(c) for c in range(start, min(start + CHAR_BLOCK, 0x110000)) if not (c < 0x20 or 0x7f <= c <= 0x9f or 0xd800 <= c <= 0xdfff))
+    if not block:
+        return Verdict("pass")
+    frag = html5lib.parseFragment("<p title=a>a</p><i>z</i>", treebuilder="etree", namespaceHTMLElements=False)
+    p = frag[0]
+    p.text = block
+    p.set("title", block)
+    try:
+        out = HTMLSerializer(quote_attr_values="always", omit_optional_tags=False).render(html5lib.getTreeWalker("etree")(frag), enc)
+        back = html5lib.parseFragment(out.decode(enc), treebuilder="etree", namespaceHTMLElements=False)
+    except Exception as e:
+        return Verdict("fail", "characters U+%04X.. with encoding %s: %s: %s" % (start, enc, type(e).__name__, short(str(e), 100)), "chars-exception:" + type(e).__name__, nontrivial=True)
+    try:
+        block.encode(enc)
+        nontrivial = False
+    except UnicodeEncodeError:
+        nontrivial = True
+    got_text, got_attr = (back[0].text or "") if len(back) else None, back[0].get("title") if len(back) else None
+    for what, got in (("text", got_text), ("attribute value", got_attr)):
+        if got != block:
+            k = next((i for i, (a, b) in enumerate(zip(got or "", block)) if a != b), min(len(got or ""), len(block)))
+            return Verdict("fail", "%s with the characters U+%04X..U+%04X written in %s reads back differently from character %d on: given %s, read back %s (markup %s)"
+                           % (what, start, start + CHAR_BLOCK - 1, enc, k, ascii(block[k:k + 4]), ascii((got or "")[k:k + 6]), short(out, 120)), "chars-differ:" + what.split()[0],
+                           nontrivial=True)
+    return Verdict("pass", nontrivial=nontrivial, sig=sig64("chars", start, enc), classes=["all-code-points"])
+
+
+CHAR_ENCODINGS = ["ascii", "iso-8859-2", "windows-1252", "shift_jis", "koi8-r", "latin-1", "big5", "utf-8"]
+
+
+def run_chars(acc, part, of, encodings, pid="C07"):
+    n = 0
+    for bi, start in enumerate(range(0x20, 0x110000, CHAR_BLOCK)):
+        if bi % of != part:
+            continue
+        for enc in (encodings[0], encodings[1 + bi % (len(encodings) - 1)]):
+            case = {"kind": "chars", "start": start, "encoding": enc}
+            acc.add(case, check_chars(case, pid))
+            n += 1
+    acc.extra["code_point_blocks"] = n
+
+
 def shards(tier):
     quick = tier == "quick"
-    return [{"kind": "hyp", "n": 2500 if quick else 30000, "size": 40 if quick else 200} for _ in range(16)]
+    return [{"kind": "hyp", "n": 2500 if quick else 30000, "size": 40 if quick else 200} for _ in range(16)] + [{"kind": "chars", "part": i, "of": 2} for i in range(2)]
 
 
 def run_shard(desc, seed, tier):
     acc = Acc()
+    if desc["kind"] == "chars":
+        run_chars(acc, desc["part"], desc["of"], CHAR_ENCODINGS)
+        return acc
     strat = st.tuples(sized_binary(20, 60 + desc["size"] * 6), st.binary(min_size=13, max_size=13))
 
     def fn(x):
